@@ -225,8 +225,9 @@ func (r *Router) AddNamed(name, path string, handler HandlerFunc, methods ...str
 func (r *Router) AddRoute(route *Route) *Route {
 	r.appendRoute(route)
 
-	// init route cache container
-	if r.enableCaching && r.cachedRoutes == nil {
+	// init route cache container.
+	// a route added later can change what an already cached path resolves to: start with an empty cache again.
+	if r.enableCaching && (r.cachedRoutes == nil || r.cachedRoutes.Len() > 0) {
 		r.cachedRoutes = NewCachedRoutes(int(r.maxNumCaches))
 	}
 
